@@ -12,6 +12,7 @@ import (
 	"os/exec"
 	"runtime"
 	"strconv"
+	"syscall"
 	"time"
 
 	"github.com/rogpeppe/go-internal/lockedfile"
@@ -58,6 +59,8 @@ func doCall(name, path, arg string) string {
 		if err != nil {
 			return "err"
 		}
+		// marker for the system-call trace: the call has returned, Close comes next
+		unix.FcntlInt(f.Fd(), unix.F_GETFD, 0)
 		f.Close()
 		return "ok"
 	}
@@ -128,6 +131,30 @@ func helperMain(args []string) {
 		stressWorker(args[1:])
 	case "hist": // hist <dir> <proc> <goroutines> <iters> <seed> <mode>
 		histWorker(args[1:])
+	case "mutexperm": // mutexperm <path> <uid>: drop privileges, Lock, report, hold until stdin closes
+		uid, _ := strconv.Atoi(args[2])
+		if err := syscall.Setgroups([]int{}); err != nil {
+			fmt.Println("NOPRIV", err)
+			return
+		}
+		if err := syscall.Setgid(uid); err != nil {
+			fmt.Println("NOPRIV", err)
+			return
+		}
+		if err := syscall.Setuid(uid); err != nil {
+			fmt.Println("NOPRIV", err)
+			return
+		}
+		unlock, err := lockedfile.MutexAt(args[1]).Lock()
+		if err != nil {
+			fmt.Printf("ERR %d perm=%v\n", monoNow(), os.IsPermission(err))
+			return
+		}
+		fmt.Printf("LOCKED %d\n", monoNow())
+		buf := make([]byte, 1)
+		os.Stdin.Read(buf)
+		unlock()
+		fmt.Printf("UNLOCKED %d\n", monoNow())
 	case "stresslaunch": // stresslaunch <dir> <procs> <goroutines> <iters> <seed> <npaths>
 		// one parent for all workers, so that a single `strace -f` sees every process
 		self, _ := os.Executable()
@@ -153,11 +180,7 @@ func helperMain(args []string) {
 	case "lockwait": // lockwait <path> <kind>: acquire, report the time, release
 		t0 := monoNow()
 		var out string
-		if args[2] == "write" {
-			out = doCall("write", args[1], args[3])
-		} else {
-			out = doCall(args[2], args[1], "-")
-		}
+		out = doCall(args[2], args[1], args[3])
 		fmt.Printf("DONE %s %d %d\n", out, t0, monoNow())
 	default:
 		os.Exit(2)
